@@ -12,11 +12,19 @@ type verifReader struct {
 	buf      []byte
 	pos      int
 	eofReads int
+	eofLimit int // 0 = unchecked; otherwise reading past the end more often than this is a violation (non-termination)
+}
+
+func (r *verifReader) atEOF() {
+	r.eofReads++
+	if r.eofLimit > 0 {
+		vsymAssert(r.eofReads <= r.eofLimit, "parser keeps reading after end of stream (does not terminate)")
+	}
 }
 
 func (r *verifReader) ReadByte() (byte, error) {
 	if r.pos >= len(r.buf) {
-		r.eofReads++
+		r.atEOF()
 		return 0, io.EOF
 	}
 	b := r.buf[r.pos]
@@ -26,7 +34,7 @@ func (r *verifReader) ReadByte() (byte, error) {
 
 func (r *verifReader) Read(dst []byte) (int, error) {
 	if r.pos >= len(r.buf) {
-		r.eofReads++
+		r.atEOF()
 		return 0, io.EOF
 	}
 	n := copy(dst, r.buf[r.pos:])
@@ -43,7 +51,7 @@ func (r *verifReader) ReadBytes(delim byte) ([]byte, error) {
 			return r.buf[start:r.pos], nil
 		}
 	}
-	r.eofReads++
+	r.atEOF()
 	return r.buf[start:r.pos], io.EOF
 }
 
